@@ -136,6 +136,24 @@ def thorough_extras(units, repo, work, seed, results):
             an = R.analyse(results[u]['g'], f.result(), u)
             extra['stability'].setdefault(u, []).append(
                 dict(seed=s, failed=sorted(an.fail), resource=an.resource, hard=len(an.hard_errors), wall_s=round(an.wall, 2)))
+    # cross-check (NOT proof): every bounded stand-in harness is also run on the functions as they are, although
+    # Verus decides them.  A counterexample for a clause that Verus proves can only mean that an assumed shim
+    # (std string semantics) or the executable copy of the contract is wrong, so it is reported as UNDECIDED.
+    from . import bounded
+    from . import weave as W
+    extra['bounded_crosscheck'] = {}
+    for u in units:
+        try:
+            unit = W.load_unit(u)
+        except Exception:
+            continue
+        for spec in unit.ITEMS:
+            if not spec or not spec.get('bounded'):
+                continue
+            iid = spec.get('id') or W._default_id(spec['path'])
+            if iid in (results[u].get('isolated') or {}):
+                continue
+            extra['bounded_crosscheck'].setdefault(u, []).append(bounded.run(iid, spec, repo, os.path.join(work, u, 'xcheck')))
     return extra
 
 
@@ -300,6 +318,17 @@ def report_property(prop, a, reg, results, extra, seed, t0):
                 newfail = [f for f in row['failed'] if f in base.get(u, []) and not any(f == v[1]['id'] for v in violations)]
                 if newfail or row['resource'] or row['hard']:
                     undecided.append('unit %s: proof unstable under seed %s: %s %s' % (u, row['seed'], newfail, row['resource']))
+    for u in units_for(prop, reg):
+        for bd in (extra.get('bounded_crosscheck') or {}).get(u, []):
+            meta = [x for x in results[u]['g'].items if x['id'] == bd['item']] if 'g' in results[u] else []
+            if meta and prop not in meta[0].get('props', []):
+                continue
+            bounded_rows.append(dict(bd, unit=u, role='thorough-tier cross-check of the executable contract copy against a function Verus decides'))
+            if bd['status'] == 'witness':
+                undecided.append('unit %s: the bounded cross-check of %s contradicts a clause the verifier proves (%s): an assumed shim or the '
+                                 'executable copy of the contract is wrong' % (u, bd['item'], sorted(bd['witnesses'].items())[:2]))
+            elif bd['status'] == 'error':
+                undecided.append('unit %s: bounded cross-check of %s could not run: %s' % (u, bd['item'], bd['detail'][:200]))
     if not obligations:
         undecided.append('no obligations selected for %s (vacuous check)' % prop)
     for o in discharged[:4]:
@@ -330,8 +359,8 @@ def report_property(prop, a, reg, results, extra, seed, t0):
     for x in undecided:
         print('UNDECIDED property=%s %s' % (prop, x))
     extra = dict(extra, bounded_rows=[dict(function=b['item'], unit=b['unit'], harness=b['harness'], status=b['status'], cases=b['checked'],
-                                           bound=b['bound'], witnesses=b['witnesses'], note='bounded stand-in for a function the verifier '
-                                           'could not take; never counted as discharged') for b in bounded_rows])
+                                           bound=b['bound'], witnesses=b['witnesses'], note=b.get('role', 'bounded stand-in for a function the verifier '
+                                           'could not take') + '; never counted as discharged') for b in bounded_rows])
     write_evidence(prop, a.tier, seed, obligations, discharged, violations, known, undecided, fn_rows, trusted,
                    rewrites, samples, vac_total, vac_ok, cmds, solver_ms, time.time() - t0, reg, extra)
     print('%s: %d/%d obligations discharged, %d violation(s), %d known finding(s), %d undecided note(s); exit %d'
